@@ -13,6 +13,7 @@
 #if !defined(VITA_FIXED_VALIDATION_H)
 #define      VITA_FIXED_VALIDATION_H
 
+#include "kernel/evaluator.h"
 #include "kernel/validation_strategy.h"
 #include "kernel/gp/src/problem.h"
 
@@ -31,13 +32,14 @@ namespace vita
 class holdout_validation : public validation_strategy
 {
 public:
-  explicit holdout_validation(src_problem &);
+  explicit holdout_validation(src_problem &, cached_evaluator * = nullptr);
 
   void init(unsigned) override;
 
 private:
   dataframe &training_;
   dataframe &validation_;
+  cached_evaluator *eva_t_;
 
   const environment &env_;
 };
